@@ -330,8 +330,12 @@ void EntityManager::applyCommandPack(TemporalStorage& storage, size_t begin, siz
         return mask.merge(getExtraComponents(mask));
     };
     // The commands are folded into one move, but with the meaning they have when applied one by one:
-    // `final_mask` is the component set after each command, kept closed under the declared dependencies.
-    final_mask = closed(final_mask);
+    // `final_mask` is the component set after each command; every command that changes it goes through an
+    // archetype lookup, which closes the set under the declared dependencies. A creation does so too, but an
+    // existing entity starts from the set it really has: its archetype may predate a dependency declaration.
+    if (create) {
+        final_mask = closed(final_mask);
+    }
     initial_mask = final_mask;
     ComponentIdMask replaced; // removed (or re-assigned) at some point of the pack: an instance carried over is stale
     std::vector<std::pair<ComponentId, size_t> > value_source; // component -> assign command that supplies its value
@@ -363,11 +367,11 @@ void EntityManager::applyCommandPack(TemporalStorage& storage, size_t begin, siz
                 auto next = final_mask;
                 next.set(command.component_id, false);
                 next = closed(next);
-                if (!next.has(command.component_id)) { // otherwise: dependent of a present master, no effect
-                    final_mask = next;
+                if (!next.has(command.component_id)) { // otherwise: dependent of a present master, it stays
                     replaced.set(command.component_id, true);
                     forget(command.component_id);
                 }
+                final_mask = next;
             }
             break;
         case TemporalStorage::Action::kAssignComponent:
